@@ -122,6 +122,7 @@ pub fn corpus(format: usize, rng: &mut Rng, m128: bool) -> Vec<u8> {
                 fe_hi: rng.u8() & 0x18,
                 big_unknown: if rng.chance(1, 16) { 66000 + rng.below(5000) as usize } else { 0 },
                 zlib_exact: None,
+                hdr_flags: if rng.chance(1, 4) { rng.u8() } else { 0 },
             };
             write_szx(&s, &opt)
         }
